@@ -156,3 +156,70 @@ func init() {
 		return "ok " + hexOf(data)
 	}
 }
+
+// ---- independent GF(256)/0x11D arithmetic for harness-side oracles (no table of /repo is used)
+func hxtime(a byte) byte {
+	if a&0x80 != 0 {
+		return (a << 1) ^ 0x1D
+	}
+	return a << 1
+}
+func hmul(a, b byte) byte {
+	var r byte
+	for i := 0; i < 8; i++ {
+		if b&(1<<i) != 0 {
+			r ^= a
+		}
+		a = hxtime(a)
+	}
+	return r
+}
+func heval(p []byte, x byte) byte {
+	var r byte
+	for _, c := range p {
+		r = hmul(r, x) ^ c
+	}
+	return r
+}
+
+func init() {
+	// rs.basis n: every basis message v*x^j (v in 1..255, j in 0..254-n) through the real coder;
+	// the codeword message++parity must vanish at alpha^0..alpha^(n-1) (checked with the
+	// independent arithmetic above).  Output: ok <messages> bad=<count> [first=v,j]
+	ops["rs.basis"] = func(a []string) string {
+		n := atoi(a[0])
+		roots := make([]byte, n)
+		r := byte(1)
+		for i := range roots {
+			roots[i] = r
+			r = hxtime(r)
+		}
+		bad, total := 0, 0
+		first := ""
+		for j := 0; j+n <= 254; j++ {
+			for v := 1; v < 256; v++ {
+				msg := make([]byte, j+1)
+				msg[0] = byte(v)
+				h := reedsolomon.New(n)
+				h.Write(msg)
+				par := h.Sum(make([]byte, 0, n))
+				cw := append(msg, par...)
+				total++
+				okc := len(par) == n
+				for _, x := range roots {
+					if heval(cw, x) != 0 {
+						okc = false
+						break
+					}
+				}
+				if !okc {
+					bad++
+					if first == "" {
+						first = fmt.Sprintf(" first=%d,%d", v, j)
+					}
+				}
+			}
+		}
+		return fmt.Sprintf("ok %d bad=%d%s", total, bad, first)
+	}
+}
